@@ -19,7 +19,8 @@ for d in sorted(glob.glob(os.path.join(ROOT, "seeded", "*", "*"))):
     if a.returncode != 0:
         rows.append((pid, n, "PATCH-FAILS", a.stderr.strip()[:100])); continue
     try:
-        r = sh(os.path.join(ROOT, "check"), pid, "quick", cwd=ROOT)
+        r = sh(os.path.join(ROOT, "check"), pid, "quick", cwd=ROOT,
+               env=dict(os.environ, VERIF_EVIDENCE_DIR=os.path.join(ROOT, "out", "seeded-evidence")))
         viol = [l for l in r.stdout.splitlines() if l.startswith("VIOLATION")]
         fails = [l.split(" verdict=")[0].replace("FAILED ", "") for l in r.stdout.splitlines() if l.startswith("FAILED")]
         res = {"property": pid, "change": n, "exit": r.returncode, "caught": r.returncode == 1 and bool(viol), "failed_obligations": fails[:12]}
